@@ -214,7 +214,7 @@ int main(void)
 				free(sep);
 			}
 			free(buf);
-		} else if (!strcmp(tok[0], "splitsep") && nt == 3) {
+		} else if ((!strcmp(tok[0], "splitsep") || !strcmp(tok[0], "possep")) && nt == 3) {
 			unsigned char *sepb, *buf;
 			long sl = hex_decode_tok(tok[1], &sepb, 1), n;
 			split_line_t *sep = NULL;
@@ -226,7 +226,13 @@ int main(void)
 			if (rc == SPLIT_LINE_UNMATCHED_QUOTE) puts("err quote");
 			else if (rc == SPLIT_LINE_ESCAPE) puts("err esc");
 			else if (rc != SPLIT_LINE_OK) puts("err other");
-			else {
+			else if (!strcmp(tok[0], "possep")) {
+				fputs("ok", stdout);
+				for (size_t i = 0; i < sep->count; ++i)
+					printf(" %zu", (size_t)(sep->args[i] - (char *)buf));
+				putchar('\n');
+				free(sep);
+			} else {
 				printf("ok %zu", sep->count);
 				for (size_t i = 0; i < sep->count; ++i) {
 					putchar(' ');
@@ -245,7 +251,8 @@ int main(void)
 			char *out;
 			if (n < 0 || memchr(buf, 0, (size_t)n)) { puts("bad-op"); continue; }
 			out = c16_capture_escaped((const char *)buf, &len, &rc);
-			if (rc != 0) puts("err newline");
+			if (rc == -2) puts("nofn");
+			else if (rc != 0) puts("err newline");
 			else { fputs("ok ", stdout); hex_print(stdout, (unsigned char *)out, len); putchar('\n'); }
 			free(out);
 			free(buf);
